@@ -173,6 +173,11 @@ class ExprMixin:
         c = self.truth(st, self.eval(st, n.test))
         if self.spec_mode:
             # clauses are pure: no forking, an if-then-else term (each arm evaluated under its guard)
+            c = z3.simplify(c)
+            if z3.is_true(c) or not self.feasible(st, z3.Not(c)):
+                return self.eval(st, n.body)
+            if z3.is_false(c) or not self.feasible(st, c):
+                return self.eval(st, n.orelse)
             arms = []
             for guard, arm in ((c, n.body), (z3.Not(c), n.orelse)):
                 mark = len(st.pc)
@@ -262,6 +267,8 @@ class ExprMixin:
             if isinstance(op, ast.Add) and l.t[0] == r.t[0] == "str":
                 return V(("str",), z3.Concat(l.z, r.z))
             raise Unsupported("string arithmetic")
+        if l.t[0] == "bool" and r.t[0] == "bool" and isinstance(op, (ast.BitOr, ast.BitAnd)):
+            return V(("bool",), z3.Or(l.z, r.z) if isinstance(op, ast.BitOr) else z3.And(l.z, r.z))
         l = self.num(st, l, node)
         r = self.num(st, r, node)
         if l.t[0] == "int" and r.t[0] == "int" and not isinstance(op, ast.Div):
@@ -631,7 +638,14 @@ class ExprMixin:
         st.seq_set_content(a, na + nb, ne)
 
     def list_repeat(self, st, a: V, r: V, node):
-        raise Unsupported("list repetition")
+        """list * int: repetition; a non-positive factor gives the empty list"""
+        n = st.seq_len(a)
+        rz = z3.simplify(r.z)
+        if z3.is_int_value(rz) and rz.as_long() <= 0:
+            return st.new_seq(a.t[1], "list", z3.IntVal(0))
+        if z3.is_int_value(rz) and rz.as_long() == 1:
+            return st.new_seq(a.t[1], "list", n, st.seq_elems(a), "rep")
+        raise Unsupported("list repetition by a symbolic factor")
 
     # ---- iteration ------------------------------------------------------------------------------------------------------------
     def as_iterable(self, st, v: V) -> Iter:
@@ -713,18 +727,18 @@ class ExprMixin:
         return self._assemble_comprehension(st, n_len, packed, None)
 
     def quantified_body(self, st: State, n_len, seq, target, elt, want_bool=False):
-        """Evaluate `elt` for a symbolic index i in [0, n_len).  Returns per-path results with the fresh symbols
-        turned into functions of i, and switches the state's heap to its post-comprehension maps."""
+        """Evaluate `elt` for a symbolic index i in [0, n_len).  Iteration i owns the reference interval
+        [base(i), end(i)); intervals of different iterations are disjoint and lie in [alloc0, alloc1)."""
         ctx = self.ctx
         i = z3.Int(ctx.fresh_name("ci"))
         alloc0 = st.alloc
         alloc1 = ctx.fresh_z("alloc", z3.IntSort())
         st.assume(alloc1 >= alloc0)
-        # post-comprehension heap: agrees with the current heap on every pre-existing object
-        pre_heap = dict(st.heap)
-        base_pc = len(st.pc)
         results = []
         binder = {"var": i, "fresh": []}
+        ctx.bound_stack.append(binder)
+        base = ctx.fresh_z("base", z3.IntSort())
+        endc = ctx.fresh_z("end", z3.IntSort())
 
         def run():
             s2 = st.clone()
@@ -733,21 +747,23 @@ class ExprMixin:
             s2.qmode = {"overlay": {}, "new": set(), "newrefs": [], "alloc0": alloc0, "alloc1": alloc1}
             s2.assume(z3.And(i >= 0, i < n_len))
             mark = len(s2.pc)
+            s2.assume(z3.And(base >= alloc0, endc <= alloc1))
+            s2.alloc = base
             try:
                 self.assign(s2, target, seq.get(s2, i))
                 v = self.eval(s2, elt)
             except PyRaise as e:
                 results.append(("raise", e, s2.pc[mark:], None, s2))
                 return
+            s2.assume(endc == s2.alloc)
             results.append(("ok", v, s2.pc[mark:], s2.qmode, s2))
 
-        ctx.bound_stack.append(binder)
         try:
             for _ in self.enumerate_paths(run):
                 pass
         finally:
             ctx.bound_stack.pop()
-        return (i, binder["fresh"], results, alloc0, alloc1)
+        return (i, binder["fresh"], results, alloc0, alloc1, base, endc)
 
     def _functionize(self, i, fresh, exprs):
         """replace every fresh constant created inside the body by a function of the bound index"""
@@ -758,12 +774,12 @@ class ExprMixin:
         return [z3.substitute(e, *subs) if subs else e for e in exprs], dict((_key(c), r) for c, r in subs)
 
     def _assemble_comprehension(self, st: State, n_len, packed, et_hint, kind="list"):
-        (i, fresh, results, alloc0, alloc1) = packed
+        (i, fresh, results, alloc0, alloc1, base, endc) = packed
         oks = [r for r in results if r[0] == "ok"]
         for r in results:
             if r[0] == "raise":
                 # the comprehension raises when some iteration does
-                facts = r[2]
+                facts = [f_ for f_ in r[2] if not any(_mentions(f_, c) for c in (base, endc))]
                 cond = z3.And(*facts) if facts else z3.BoolVal(True)
                 if any(_mentions(cond, c) for c in [i] + fresh):
                     # depends on the iteration: it must be impossible (for all i), unless the contract allows it
@@ -784,13 +800,17 @@ class ExprMixin:
                     raise Unsupported(f"comprehension element types differ: {r[1].t} / {et}")
         if et[0] in ("tuple", "static", "none"):
             raise Unsupported(f"comprehension of {et}")
-        uses_heap = any(r[3]["newrefs"] for r in oks)
-        if len(oks) == 1 and len(results) == 1 and not fresh and not uses_heap:
+        core_ids = {base.get_id(), endc.get_id()}
+        extra_fresh = [c for c in fresh if c.get_id() not in core_ids]
+        uses_heap = any(r[3]["newrefs"] or z3.simplify(r[4].alloc).get_id() != base.get_id() for r in oks)
+        if len(oks) == 1 and len(results) == 1 and not extra_fresh and not uses_heap:
             # pure single-path body: the result content is the canonical array of its defining term, so the same
             # comprehension written in code and in a clause denotes the same array
             _, v, facts, q, s2 = oks[0]
             vz = st.coerce(v, et).z
             for f_ in facts:
+                if any(_mentions(f_, c) for c in (base, endc)):
+                    continue
                 st.assume(z3.ForAll([i], z3.Implies(z3.And(i >= 0, i < n_len), f_)))
             probe = z3.Int("ki")
             K = self.keys_array(st, z3.substitute(vz, (i, probe)).sexpr(), lambda x: z3.substitute(vz, (i, x)), vz.sort())
@@ -804,7 +824,9 @@ class ExprMixin:
             # (every quantified heap fact is guarded by `o < alloc` or by membership), so the content an object
             # gets at allocation is stated directly on the current maps ("pre-filled" view of fresh cells).
             for k_ref, fields_ in q["overlay"].items():
-                ref = next(x for x in q["newrefs"] if _key(x) == k_ref)
+                ref = next((x for x in q["newrefs"] if _key(x) == k_ref), None)
+                if ref is None:
+                    raise Unsupported("write to an object that is not local to the comprehension iteration")
                 for fname, val in fields_.items():
                     if fname == "len":
                         body.append(st.map("len", z3.IntSort())[ref] == val)
@@ -822,14 +844,15 @@ class ExprMixin:
             conj = z3.And(*body)
             (conj_f,), submap = self._functionize(i, fresh, [conj])
             st.assume(z3.ForAll([i], z3.Implies(z3.And(i >= 0, i < n_len), conj_f), patterns=[res_elems[i]]))
-            # new references are distinct per iteration: inverse function
-            for ref in q["newrefs"]:
-                rf = submap.get(_key(ref))
-                if rf is not None:
-                    inv = z3.Function(self.ctx.fresh_name("inv"), z3.IntSort(), z3.IntSort())
-                    st.assume(z3.ForAll([i], z3.Implies(z3.And(i >= 0, i < n_len), inv(rf) == i), patterns=[rf]))
-        if uses_heap:
-            st.alloc = alloc1
+        # reference intervals of different iterations are disjoint (objects of iteration i precede those of j > i)
+        bf = z3.Function(base.decl().name() + "_f", z3.IntSort(), z3.IntSort())
+        ef = z3.Function(endc.decl().name() + "_f", z3.IntSort(), z3.IntSort())
+        j = z3.Int(self.ctx.fresh_name("cj"))
+        st.assume(z3.ForAll([i, j], z3.Implies(z3.And(i >= 0, i < j, j < n_len), ef(i) <= bf(j)),
+                            patterns=[z3.MultiPattern(ef(i), bf(j))]))
+        st.assume(z3.ForAll([i], z3.Implies(z3.And(i >= 0, i < n_len), z3.And(alloc0 <= bf(i), bf(i) <= ef(i), ef(i) <= alloc1)),
+                            patterns=[bf(i)]))
+        st.alloc = alloc1
         out = st.new_seq(et, kind, n_len, res_elems, "comp")
         return out
 
@@ -876,6 +899,8 @@ class ExprMixin:
             return self.SPEC_FUNCS[f.items](self, st, args, kwargs, node)
         if is_static(f, "closure"):
             return self.inline(st, f.items, args, kwargs, node)
+        if is_static(f, "uf"):
+            return V(("int",), f.items(*[a.z for a in args]))
         if is_static(f, "function"):
             return self.call_function(st, f.items, args, kwargs, node)
         if is_static(f, "modattr"):
@@ -1031,7 +1056,7 @@ class ExprMixin:
                         st.assume(self.truth(st, self._spec_in(st, cl, pre, frame)))
                     raise PyRaise(exc, self.loc(node))
             # frame
-            if st.qmode is not None and c.assigns:
+            if st.qmode is not None and [a_ for a_ in c.assigns if a_ not in ("rng", "evals")]:
                 raise Unsupported("callee with side effects inside a comprehension body")
             self._havoc_locs_in(st, c.assigns, frame)
             if c.allocates:
@@ -1039,13 +1064,17 @@ class ExprMixin:
                 st.havoc_alloc()
             ret = NONE
             if c.returns is not None:
-                rt = parse_type(c.returns)
+                rt = parse_type(self.ret_type(c))
                 ret = self.ctx.fresh("ret_" + fdef.name, rt)
                 self._assume_wf(st, ret)
                 if c.fresh_result:
                     self._assume_fresh(st, ret, pre)
             extra = dict(frame)
             extra["result"] = ret
+            for gname in c.ghost_out:
+                if self.ctx.bound_stack:
+                    raise Unsupported("ghost output of a callee inside a comprehension body")
+                extra[gname] = static("uf", z3.Function(self.ctx.fresh_name(gname), z3.IntSort(), z3.IntSort()))
             for lab, e in c.labelled("ensures"):
                 st.assume(self.truth(st, self._spec_in(st, e, pre, extra)))
             return ret
@@ -1061,9 +1090,7 @@ class ExprMixin:
             if st.qmode is not None:
                 st.qmode["new"].add(_key(ret.z))
                 st.qmode["newrefs"].append(ret.z)
-                st.assume(z3.And(ret.z >= st.qmode["alloc0"], ret.z < st.qmode["alloc1"]))
-            else:
-                st.assume(ret.z >= pre.alloc)
+            st.assume(ret.z >= pre.alloc)
 
     def _spec_in(self, st, expr, old, frame):
         node = ast.parse(expr.strip(), mode="eval").body
@@ -1105,7 +1132,9 @@ class ExprMixin:
             o.pc = st.pc          # facts learnt while evaluating in the old state are kept
             return self.eval(o, n.args[0])
         if name == "implies":
-            a = self.truth(st, self.eval(st, n.args[0]))
+            a = z3.simplify(self.truth(st, self.eval(st, n.args[0])))
+            if z3.is_false(a):
+                return pybool(True)      # statically vacuous: the consequent may not even be well-typed in this case
             mark = len(st.pc)
             st.pc.append(a)
             b = self.truth(st, self.eval(st, n.args[1]))
